@@ -391,7 +391,7 @@ Lemma flatten_wf : forall t acc n l idxs,
 Proof.
   induction t; intros acc n0 l0 idxs Hw Ha; cbn [flatten_target]; try discriminate.
   - intros H; injection H as _ _ <-. exact Ha.
-  - cbn [wf_expr] in Hw. andb_split. intros H. eapply IHt1; [assumption| |exact H].
+  - cbn [wf_expr] in Hw. andb_split. intros Hf. eapply IHt1; [assumption| |exact Hf].
     cbn [forallb]. rewrite Ha. match goal with H : wf_expr tbl t2 = true |- _ => rewrite H end. reflexivity.
 Qed.
 
@@ -464,7 +464,8 @@ Hypothesis Hel : forall c b s, wf_expr tbl c = true -> wf_block tbl true b = tru
                                sat DeadB (Qx false) (el c b s).
 Hypothesis Heb : forall b s il, wf_block tbl il b = true -> inv s -> sat DeadB (Qx il) (eb b s).
 
-Tactic Notation "bindB" "as" simple_intropattern(pat) := eapply sat_bind; [ | intros pat ].
+Tactic Notation "bindB" "by" tactic3(t) "as" simple_intropattern(p1) simple_intropattern(p2) :=
+  eapply sat_bind; [ t | intros p1 p2 ].
 Ltac leafB :=
   first [ exact I | apply sat_ErrM | apply sat_UnsuppM | apply sat_PanicM; notB ].
 Ltac evB := apply Hev; assumption.
@@ -475,8 +476,8 @@ Proof.
   induction es as [|e r IH]; intros s Hw Hi; cbn [evals_with].
   - apply sat_OkM. cbn. auto.
   - cbn [forallb] in Hw. andb_split.
-    bindB as [v s1] Hq; [evB|]. unfold Qe in Hq; cbn [snd] in Hq.
-    bindB as [vs s2] [Hq2 Hl]; [apply IH; assumption|]. cbn [fst snd] in *.
+    bindB by (evB) as [v s1] Hq. unfold Qe in Hq; cbn [snd] in Hq.
+    bindB by (apply IH; assumption) as [vs s2] [Hq2 Hl]. cbn [fst snd] in *.
     apply sat_OkM. cbn. auto.
 Qed.
 
@@ -486,9 +487,9 @@ Proof.
   induction es as [|e r IH]; intros s Hw Hi; cbn [indices_with].
   - apply sat_OkM. cbn. auto.
   - cbn [forallb] in Hw. andb_split.
-    bindB as [v s1] Hq; [evB|]. unfold Qe in Hq; cbn [snd] in Hq.
-    bindB as i _; [apply sat_lift, nopanic_rsat, index_value_nopanic|].
-    bindB as [is s2] [Hq2 Hl]; [apply IH; assumption|]. cbn [fst snd] in *.
+    bindB by (evB) as [v s1] Hq. unfold Qe in Hq; cbn [snd] in Hq.
+    bindB by (apply sat_lift, nopanic_rsat, index_value_nopanic) as i _.
+    bindB by (apply IH; assumption) as [is s2] [Hq2 Hl]. cbn [fst snd] in *.
     apply sat_OkM. cbn. auto.
 Qed.
 
@@ -498,7 +499,7 @@ Lemma tail_mutate_B vl vn s root path op : inv s ->
                             | Some e' => OkM (r, with_env e' s)
                             | None => PanicM PMutVarMissing end)).
 Proof.
-  intros Hi. bindB as [root' r] _; [apply sat_lift, nopanic_rsat, mutate_path_nopanic|].
+  intros Hi. bindB by (apply sat_lift, nopanic_rsat, mutate_path_nopanic) as [root' r] _.
   destruct (assign_env vl vn root' (env s)); [apply sat_OkM; exact Hi|leafB].
 Qed.
 
@@ -507,9 +508,10 @@ Proof.
   intros Hw Hi. destruct o; cbn [mutate_with]; try leafB.
   - destruct (lookup_env l n (env s)); [apply tail_mutate_B; assumption|leafB].
   - destruct (flatten_target (EIdx o1 o2) []) as [[[vn vl] idx]|] eqn:Ef; [|leafB].
-    bindB as [path s1] [Hq _]; [apply indices_with_B; [|assumption]|].
-    + eapply flatten_wf; [exact Hw| |exact Ef]. reflexivity.
-    + cbn [snd] in Hq. destruct (lookup_env vl vn (env s1)); [apply tail_mutate_B; assumption|leafB].
+    assert (Hidx : forallb (wf_expr tbl) idx = true)
+      by (eapply flatten_wf; [exact Hw| |exact Ef]; reflexivity).
+    bindB by (apply indices_with_B; assumption) as [path s1] [Hq _].
+    cbn [snd] in Hq. destruct (lookup_env vl vn (env s1)); [apply tail_mutate_B; assumption|leafB].
 Qed.
 
 Lemma string_call_B str f args s1 :
@@ -523,8 +525,8 @@ Proof.
   { match goal with H : need f n_slice _ _ = true |- _ => pose proof (need_true _ _ _ _ H E2) as Hl end.
     destruct args as [|a0 [|a1 rest]]; cbn [length] in Hl; try lia.
     cbn [forallb] in Hw. andb_split.
-    bindB as [v0 s2] Hq; [evB|]. unfold Qe in Hq; cbn [snd] in Hq.
-    bindB as [v1 s3] Hq3; [evB|]. unfold Qe in Hq3; cbn [snd] in Hq3.
+    bindB by (evB) as [v0 s2] Hq. unfold Qe in Hq; cbn [snd] in Hq.
+    bindB by (evB) as [v1 s3] Hq3. unfold Qe in Hq3; cbn [snd] in Hq3.
     destruct v0; try leafB; destruct v1; try leafB. apply sat_OkM. exact Hq3. }
   destruct (bytes_eqb f n_to_uppercase) eqn:E3.
   { destruct (is_ascii str); [apply sat_OkM; exact Hi|leafB]. }
@@ -536,21 +538,21 @@ Proof.
   { match goal with H : need f n_find _ _ = true |- _ => pose proof (need_true _ _ _ _ H E7) as Hl end.
     destruct args as [|a0 rest]; cbn [length] in Hl; try lia.
     cbn [forallb] in Hw. andb_split.
-    bindB as [v0 s2] Hq; [evB|]. unfold Qe in Hq; cbn [snd] in Hq.
+    bindB by (evB) as [v0 s2] Hq. unfold Qe in Hq; cbn [snd] in Hq.
     destruct v0; try leafB. destruct (find str s); try leafB; apply sat_OkM; exact Hq. }
   destruct (bytes_eqb f n_replace) eqn:E8.
   { match goal with H : need f n_replace _ _ = true |- _ => pose proof (need_true _ _ _ _ H E8) as Hl end.
     destruct args as [|a0 [|a1 rest]]; cbn [length] in Hl; try lia.
     cbn [forallb] in Hw. andb_split.
-    bindB as [v0 s2] Hq; [evB|]. unfold Qe in Hq; cbn [snd] in Hq.
-    bindB as [v1 s3] Hq3; [evB|]. unfold Qe in Hq3; cbn [snd] in Hq3.
+    bindB by (evB) as [v0 s2] Hq. unfold Qe in Hq; cbn [snd] in Hq.
+    bindB by (evB) as [v1 s3] Hq3. unfold Qe in Hq3; cbn [snd] in Hq3.
     destruct v0; try leafB; destruct v1; try leafB.
     destruct (replace str s s0); try leafB. apply sat_OkM. exact Hq3. }
   pose proof (string_last_is_split f E0 E1 E2 E3 E4 E5 E6 E7 E8) as E9.
   match goal with H : need f n_split _ _ = true |- _ => pose proof (need_true _ _ _ _ H E9) as Hl end.
   destruct args as [|a0 rest]; cbn [length] in Hl; try lia.
   cbn [forallb] in Hw. andb_split.
-  bindB as [v0 s2] Hq; [evB|]. unfold Qe in Hq; cbn [snd] in Hq.
+  bindB by (evB) as [v0 s2] Hq. unfold Qe in Hq; cbn [snd] in Hq.
   destruct v0; try leafB. apply sat_OkM. exact Hq.
 Qed.
 
@@ -565,7 +567,7 @@ Proof.
   match goal with H : need f n_join _ _ = true |- _ => pose proof (need_true _ _ _ _ H E2) as Hl end.
   destruct args as [|a0 rest]; cbn [length] in Hl; try lia.
   cbn [forallb] in Hw. andb_split.
-  bindB as [v0 s2] Hq; [evB|]. unfold Qe in Hq; cbn [snd] in Hq.
+  bindB by (evB) as [v0 s2] Hq. unfold Qe in Hq; cbn [snd] in Hq.
   destruct v0; try leafB. apply sat_OkM. exact Hq.
 Qed.
 
@@ -581,11 +583,11 @@ Proof.
       match goal with H : need f n_push _ _ = true |- _ => pose proof (need_true _ _ _ _ H E1) as Hl end.
       destruct args as [|a0 rest]; cbn [length] in Hl; try lia.
       cbn [forallb] in Hw. andb_split.
-      bindB as [v s1] Hq; [evB|]. unfold Qe in Hq; cbn [snd] in Hq.
+      bindB by (evB) as [v s1] Hq. unfold Qe in Hq; cbn [snd] in Hq.
       apply mutate_with_B; assumption.
     + destruct (bytes_eqb f n_pop); apply mutate_with_B; assumption.
   - destruct (mem_name f proc_mut_names); [leafB|].
-    bindB as [recv s1] Hq; [evB|]. unfold Qe in Hq; cbn [snd] in Hq.
+    bindB by (evB) as [recv s1] Hq. unfold Qe in Hq; cbn [snd] in Hq.
     destruct recv; try leafB.
     + destruct (mem_name f number_methods); [apply sat_OkM; exact Hq|leafB].
     + apply string_call_B; assumption.
@@ -597,9 +599,9 @@ Lemma builtin_call_B g args s :
   sat DeadB Qe (builtin_call ev g args s).
 Proof.
   intros Hw Hl Hi. unfold builtin_call.
-  bindB as [vs s1] [Hq Hlen]; [apply evals_with_B; assumption|]. cbn [fst snd] in *.
+  bindB by (apply evals_with_B; assumption) as [vs s1] [Hq Hlen]. cbn [fst snd] in *.
   rewrite Hl in Hlen. destruct vs as [|v [|? ?]]; cbn [length] in Hlen; try lia.
-  destruct g; try leafB; try (apply sat_OkM; exact Hq). exact Hq.
+  destruct g; first [exact Hq | leafB | apply sat_OkM; exact Hq].
 Qed.
 
 Lemma user_call_B fname args i s :
@@ -611,41 +613,40 @@ Proof.
   destruct (lookup_fn_ok _ _ _ _ Hi El) as [(j & Hid & Has & Hll & Hbody) Hmatch].
   unfold fdef_matches in Hmatch. rewrite Hid in Hmatch. cbn [opt_eqb] in Hmatch.
   apply Z.eqb_eq in Hmatch. subst j.
-  bindB as [vs s1] [Hq Hlen]; [apply evals_with_B; assumption|]. cbn [fst snd] in *.
+  bindB by (apply evals_with_B; assumption) as [vs s1] [Hq Hlen]. cbn [fst snd] in *.
   assert (Hn : length vs = length (f_params fd)) by congruence.
   rewrite Hn, Nat.eqb_refl. cbn [negb]. rewrite Hid.
   destruct (f_llen fd <? Z.of_nat (length (f_params fd))) eqn:Elt; [apply Z.ltb_lt in Elt; lia|].
-  lazy zeta. bindB as [fl s3] [Hq3 Hfl].
-  - apply Heb; [exact Hbody|]. apply inv_push. exact Hq.
-  - cbn [fst snd] in *. specialize (Hfl eq_refl). destruct Hfl as [Hb Hn'].
-    destruct fl; try congruence; apply sat_OkM; apply inv_pop; exact Hq3.
+  lazy zeta. bindB by (apply Heb; [exact Hbody|apply inv_push; exact Hq]) as [fl s3] [Hq3 Hfl].
+  cbn [fst snd] in *. specialize (Hfl eq_refl). destruct Hfl as [Hb Hn'].
+  destruct fl; try congruence; apply sat_OkM; apply inv_pop; exact Hq3.
 Qed.
 
 Lemma eval_body_B e s : wf_expr tbl e = true -> inv s -> sat DeadB Qe (eval_body eps ev eb e s).
 Proof.
   intros Hw Hi. destruct e; cbn [eval_body]; try (apply sat_OkM; exact Hi); try leafB.
-  - bindB as b _; [apply sat_lift, interp_segs_rsat; notB|]. apply sat_OkM. exact Hi.
+  - bindB by (apply sat_lift, interp_segs_rsat; notB) as b _. apply sat_OkM. exact Hi.
   - destruct (lookup_env l n (env s)); [apply sat_OkM; exact Hi|leafB].
   - cbn [wf_expr] in Hw. andb_split. destruct op.
-    all: try (bindB as [lv s1] Hq; [evB|]; unfold Qe in Hq; cbn [snd] in Hq;
-              bindB as [rv s2] Hq2; [evB|]; unfold Qe in Hq2; cbn [snd] in Hq2;
-              bindB as v _; [apply sat_lift, nopanic_rsat, binop_values_nopanic; discriminate|];
+    all: try (bindB by (evB) as [lv s1] Hq; unfold Qe in Hq; cbn [snd] in Hq;
+              bindB by (evB) as [rv s2] Hq2; unfold Qe in Hq2; cbn [snd] in Hq2;
+              bindB by (apply sat_lift, nopanic_rsat, binop_values_nopanic; discriminate) as v _;
               apply sat_OkM; exact Hq2).
-    + bindB as [lv s1] Hq; [evB|]. unfold Qe in Hq; cbn [snd] in Hq.
+    + bindB by (evB) as [lv s1] Hq. unfold Qe in Hq; cbn [snd] in Hq.
       destruct lv as [| |[|]| |]; try (apply sat_OkM; exact Hq);
-      (bindB as [rv s2] Hq2; [evB|]; unfold Qe in Hq2; cbn [snd] in Hq2;
+      (bindB by (evB) as [rv s2] Hq2; unfold Qe in Hq2; cbn [snd] in Hq2;
        destruct rv; try leafB; apply sat_OkM; exact Hq2).
-    + bindB as [lv s1] Hq; [evB|]. unfold Qe in Hq; cbn [snd] in Hq.
+    + bindB by (evB) as [lv s1] Hq. unfold Qe in Hq; cbn [snd] in Hq.
       destruct lv as [| |[|]| |]; try (apply sat_OkM; exact Hq);
-      (bindB as [rv s2] Hq2; [evB|]; unfold Qe in Hq2; cbn [snd] in Hq2;
+      (bindB by (evB) as [rv s2] Hq2; unfold Qe in Hq2; cbn [snd] in Hq2;
        destruct rv; try leafB; apply sat_OkM; exact Hq2).
-  - cbn [wf_expr] in Hw. bindB as [v s1] Hq; [evB|]. unfold Qe in Hq; cbn [snd] in Hq.
+  - cbn [wf_expr] in Hw. bindB by (evB) as [v s1] Hq. unfold Qe in Hq; cbn [snd] in Hq.
     destruct op, v; try leafB; apply sat_OkM; exact Hq.
-  - cbn [wf_expr] in Hw. bindB as [vs s1] [Hq _]; [apply evals_with_B; assumption|].
+  - cbn [wf_expr] in Hw. bindB by (apply evals_with_B; assumption) as [vs s1] [Hq _].
     apply sat_OkM. exact Hq.
   - cbn [wf_expr] in Hw. andb_split.
-    bindB as [av s1] Hq; [evB|]. unfold Qe in Hq; cbn [snd] in Hq.
-    bindB as [iv s2] Hq2; [evB|]. unfold Qe in Hq2; cbn [snd] in Hq2.
+    bindB by (evB) as [av s1] Hq. unfold Qe in Hq; cbn [snd] in Hq.
+    bindB by (evB) as [iv s2] Hq2. unfold Qe in Hq2; cbn [snd] in Hq2.
     destruct av; try leafB. destruct iv; try leafB.
     destruct (negb (is_finite x) || negb (is_int x)); [leafB|]. lazy zeta.
     destruct ((to_isize x <? 0) || (len_z vs <=? to_isize x)); [leafB|].
@@ -665,31 +666,33 @@ Lemma exec_body_B t s il : wf_stmt tbl il t = true -> inv s -> sat DeadB (Qx il)
 Proof.
   intros Hw Hi. destruct t; cbn [exec_body]; cbn [wf_stmt] in Hw.
   - apply sat_OkM. apply QxN. exact Hi.
-  - bindB as [v s1] Hq; [evB|]. apply sat_OkM. apply QxN. exact Hq.
-  - bindB as [v s1] Hq; [evB|]. unfold Qe in Hq; cbn [snd] in Hq.
+  - bindB by (evB) as [v s1] Hq. apply sat_OkM. apply QxN. exact Hq.
+  - bindB by (evB) as [v s1] Hq. unfold Qe in Hq; cbn [snd] in Hq.
     destruct (assign_env l n v (env s1)); [apply sat_OkM; apply QxN; exact Hq|leafB].
-  - andb_split. bindB as [v s1] Hq; [evB|]. unfold Qe in Hq; cbn [snd] in Hq.
+  - andb_split. bindB by (evB) as [v s1] Hq. unfold Qe in Hq; cbn [snd] in Hq.
     destruct (flatten_target target []) as [[[vn vl] idx]|] eqn:Ef; [|leafB].
-    bindB as [path s2] [Hq2 Hlen]; [apply indices_with_B; [|assumption]|].
-    + eapply flatten_wf; [eassumption| |exact Ef]. reflexivity.
-    + cbn [fst snd] in *. destruct (lookup_env vl vn (env s2)) as [root|]; [|leafB].
-      bindB as root' _.
-      * apply sat_lift, assign_path_rsat. right. destruct target; try discriminate.
-        cbn [flatten_target] in Ef. apply flatten_len in Ef. cbn [length] in Ef.
-        destruct path; [cbn in Hlen; lia|discriminate].
-      * destruct (assign_env vl vn root' (env s2)); [apply sat_OkM; apply QxN; exact Hq2|leafB].
-  - andb_split. bindB as [cv s1] Hq; [evB|]. unfold Qe in Hq; cbn [snd] in Hq.
-    bindB as b _; [apply sat_lift, nopanic_rsat, truthy_nopanic|].
+    assert (Hidx : forallb (wf_expr tbl) idx = true)
+      by (apply (flatten_wf target [] vn vl idx); [assumption|reflexivity|exact Ef]).
+    bindB by (apply indices_with_B; assumption) as [path s2] [Hq2 Hlen].
+    cbn [fst snd] in *. destruct (lookup_env vl vn (env s2)) as [root|]; [|leafB].
+    assert (Hne : path <> []).
+    { destruct target; try discriminate.
+      cbn [flatten_target] in Ef. apply flatten_len in Ef. cbn [length] in Ef.
+      destruct path; [cbn in Hlen; lia|discriminate]. }
+    bindB by (apply sat_lift, assign_path_rsat; right; exact Hne) as root' _.
+    destruct (assign_env vl vn root' (env s2)); [apply sat_OkM; apply QxN; exact Hq2|leafB].
+  - andb_split. bindB by (evB) as [cv s1] Hq. unfold Qe in Hq; cbn [snd] in Hq.
+    bindB by (apply sat_lift, nopanic_rsat, truthy_nopanic) as b _.
     destruct b; [apply Heb; assumption|].
     destruct f; [apply Heb; assumption|apply sat_OkM; apply QxN; exact Hq].
   - andb_split. eapply sat_weaken; [apply Qx_weaken|]. apply Hel; assumption.
   - apply Heb; assumption.
   - destruct e.
-    + bindB as [v s1] Hq; [evB|]. apply sat_OkM. split; [exact Hq|]. intros _; split; discriminate.
+    + bindB by (evB) as [v s1] Hq. apply sat_OkM. split; [exact Hq|]. intros _; split; discriminate.
     + apply sat_OkM. split; [exact Hi|]. intros _; split; discriminate.
   - apply sat_OkM. split; [exact Hi|]. intros E. congruence.
   - apply sat_OkM. split; [exact Hi|]. intros E. congruence.
-  - bindB as [v s1] Hq; [evB|]. apply sat_OkM. apply QxN. exact Hq.
+  - bindB by (evB) as [v s1] Hq. apply sat_OkM. apply QxN. exact Hq.
 Qed.
 
 Lemma loop_body_B c body s :
@@ -697,10 +700,10 @@ Lemma loop_body_B c body s :
   sat DeadB (Qx false) (loop_body ev el eb c body s).
 Proof.
   intros Hc Hb Hi. unfold loop_body.
-  bindB as [cv s1] Hq; [evB|]. unfold Qe in Hq; cbn [snd] in Hq.
-  bindB as b _; [apply sat_lift, nopanic_rsat, truthy_nopanic|].
+  bindB by (evB) as [cv s1] Hq. unfold Qe in Hq; cbn [snd] in Hq.
+  bindB by (apply sat_lift, nopanic_rsat, truthy_nopanic) as b _.
   destruct (negb b); [apply sat_OkM; apply QxN; exact Hq|].
-  bindB as [fl s2] [Hq2 _]; [apply (Heb body s1 true); assumption|]. cbn [snd] in Hq2.
+  bindB by (apply (Heb body s1 true); assumption) as [fl s2] [Hq2 _]. cbn [snd] in Hq2.
   destruct fl.
   - apply Hel; assumption.
   - apply sat_OkM. split; [exact Hq2|]. intros _; split; discriminate.
@@ -715,7 +718,7 @@ Proof.
   - apply sat_OkM. apply QxN. apply inv_pop. exact Hi.
   - unfold wf_block in Hw. cbn [forallb] in Hw. andb_split.
     destruct (in_plan_stmt P (stmt_sid t)); [apply IH; assumption|].
-    bindB as [fl s'] [Hq Hfl]; [apply Hex; assumption|]. cbn [fst snd] in *.
+    bindB by (apply (Hex t s il); assumption) as [fl s'] [Hq Hfl]. cbn [fst snd] in *.
     destruct fl; try (apply IH; assumption);
       (apply sat_OkM; split; [apply inv_pop; exact Hq|exact Hfl]).
 Qed.
@@ -723,8 +726,58 @@ Qed.
 Lemma block_body_B b s il : wf_block tbl il b = true -> inv s -> sat DeadB (Qx il) (block_body P ex b s).
 Proof.
   intros Hw Hi. unfold block_body.
-  bindB as s1 Hq; [apply sat_lift; eapply hoist_inv; [exact Hw|apply inv_push; exact Hi]|].
+  bindB by (apply sat_lift; eapply hoist_inv; [exact Hw|apply inv_push; exact Hi]) as s1 Hq.
   apply stmts_with_B; assumption.
 Qed.
 
 End PartB.
+
+Lemma deadB_all tbl P eps : forall n,
+  (forall e s, wf_expr tbl e = true -> inv tbl s -> sat DeadB (Qe tbl) (eval P eps n e s)) /\
+  (forall t s il, wf_stmt tbl il t = true -> inv tbl s -> sat DeadB (Qx tbl il) (exec P eps n t s)) /\
+  (forall c b s, wf_expr tbl c = true -> wf_block tbl true b = true -> inv tbl s ->
+                 sat DeadB (Qx tbl false) (exec_loop P eps n c b s)) /\
+  (forall b s il, wf_block tbl il b = true -> inv tbl s -> sat DeadB (Qx tbl il) (exec_block P eps n b s)).
+Proof.
+  induction n as [|n (IHe & IHx & IHl & IHb)].
+  - refine (conj _ (conj _ (conj _ _))); intros; exact I.
+  - refine (conj _ (conj _ (conj _ _))); intros.
+    + rewrite eval_S. apply eval_body_B; assumption.
+    + rewrite exec_S. apply exec_body_B; assumption.
+    + rewrite exec_loop_S. apply loop_body_B; assumption.
+    + rewrite exec_block_S. apply block_body_B; assumption.
+Qed.
+
+Lemma inv_init tbl : inv tbl init_st.
+Proof. unfold inv. cbn. repeat constructor. Qed.
+
+Theorem run_impl_deadB prog : wf_static prog = true ->
+  forall plan eps fuel s, ending_of (run_impl plan eps fuel prog) = Panicked s -> ~ DeadB s.
+Proof.
+  intros Hw plan eps fuel s. unfold run_impl, ending_of.
+  pose proof (proj2 (proj2 (proj2 (deadB_all (ftable prog) plan eps fuel))) prog init_st false Hw
+                (inv_init _)) as H.
+  unfold sat in H. destruct (exec_block plan eps fuel prog init_st) as [o r].
+  cbn [snd] in *. destruct r; try discriminate. intros E; injection E as <-. exact H.
+Qed.
+
+(* ---------- the two results in the form stated by Properties/C06.v ---------- *)
+Lemma dead_by_construction :
+  forall plan eps fuel prog s,
+  ending_of (run_impl plan eps fuel prog) = Panicked s ->
+  s <> PNumOp /\ s <> PMutBuiltin /\ s <> PNoFnScope /\ s <> PFind.
+Proof.
+  intros plan eps fuel prog s H. apply run_impl_deadA in H. unfold DeadA in H.
+  repeat split; intros E; apply H; auto.
+Qed.
+
+Lemma wf_static_never_panics_structural :
+  forall prog, wf_static prog = true ->
+  forall plan eps fuel s,
+  ending_of (run_impl plan eps fuel prog) = Panicked s ->
+  s <> PArgCount /\ s <> PBuiltinArity /\ s <> PArgIndex /\ s <> PBreakEscapes /\
+  s <> PIdxAssignEnd /\ s <> PParamRange.
+Proof.
+  intros prog Hw plan eps fuel s H. apply (run_impl_deadB prog Hw) in H. unfold DeadB in H.
+  repeat split; intros E; apply H; auto 7.
+Qed.
